@@ -32,6 +32,7 @@ ASSUMPTIONS = [
     "a sample point within 1e-9 x (window, cell, origin scale) of a cell face may be masked or take the value of any cell touching it, component by component",
     "raising 'No cells were selected' is accepted only when no cell can be seen through the requested window",
     "resolutions up to 24 pixels per axis in simulation",
+    "pixels whose sample point lies within 1e-9 window widths of a cell face are not judged (1e-12 in the zoom cases, where the deepest cells are 1.5e-8 window widths wide)",
 ]
 REAL_STUB = {
     "real": ["osyris.map front-end (pre-selection, get_direction/VectorBasis, grid, reduction, masking, vector packing, units)", "Layer / parse_layer", "evaluate_on_grid source (by CPython)"],
@@ -78,6 +79,20 @@ def generate(rng, tier):
         view["origin_unit"] = m["unit"]
         if rng.random() < 0.7:
             view["dx"], view["dy"] = None, None
+    zoom = rng.random() < 0.03
+    if zoom:
+        # a zoom: a chain of refinements down to level 26 under a map as wide as the domain, one pixel sampling the deepest leaf
+        # (cells 10^7 times smaller than the window: the sample points must keep all their digits)
+        m = {"wseed": rng.getrandbits(40), "ndim": 2, "levelmin": 1, "levelmax": 26, "refine_p": 0.05, "maxcells": 120, "holes": 0.0, "hole_box": False,
+             "unit": "cm", "scale": 1.0, "chain": [round(rng.uniform(0.2, 0.8), 6) + 1.0 / 3e7 for _ in range(2)]}
+        cells = build_mesh(m)
+        leaf = max(cells, key=lambda c: (c["level"], c["gid"]))
+        # pixel (4, 3) of 5 x 5 lies 0.4 and 0.2 window widths from the origin; it samples the leaf a fifth of its half size from a face
+        half = 0.5 * leaf["dx"]
+        side = rng.choice([1.0, -1.0])
+        view = {"origin": [leaf["pos"][0] - 0.4 + side * 0.8 * half, leaf["pos"][1] - 0.2 + rng.choice([0.0, 0.8, -0.8]) * half], "origin_unit": "cm",
+                "dx": 1.0, "dy": None, "window_unit": "cm", "resolution": 5}
+        direction = gen_direction(rng, 2)
     case = {"mesh": m, "view": view, "direction": direction, "layers": gen_layers(rng, m["ndim"]),
             "call_mode": rng.choice([None, None, "image"]), "sched": draw_schedule_config(rng, maxT=8),
             "knob": rng.choice([None, None, None, 1024, 16384]), "render": rng.choice([True, "log"]) if rng.random() < 0.03 else False,
@@ -86,6 +101,9 @@ def generate(rng, tier):
     if case["render"] == "log":
         # a layer with zero and negative values under the logarithmic colour scale
         case["layers"][0] = {"key": "flag", "mode": rng.choice([None, "image"])}
+    if zoom:
+        case.update(zoom=True, layers=[{"key": "density", "mode": None}], render=False, prior=False, later=False)
+        return case
     if not case["render"] and rng.random() < 0.1:
         # a quantity that is infinite in some cells (a time scale with zero rate), as the last or as another layer
         lay = {"key": "tcool", "mode": rng.choice([None, None, "image"])}
@@ -218,7 +236,7 @@ def judge(case, plot, cells, loc, vals, origin_s, nuv, V, stats, label, thick=No
     ys = np.asarray(plot.y, dtype=float) * f
     scale = max(float(np.max(np.abs(xs))) if xs.size else 0.0, float(np.max(np.abs(ys))) if ys.size else 0.0,
                 max(c["dx"] for c in cells), float(np.max(np.abs(origin_s))) if len(origin_s) else 0.0)
-    eps = 1e-9 * scale
+    eps = (1e-12 if case.get("zoom") else 1e-9) * scale
     nl = len(case["layers"])
     if len(plot.layers) != nl:
         V("structure", "layer-count", {"got": len(plot.layers), "want": nl})
